@@ -700,9 +700,12 @@ def build_discover(case):
             must_addrs, _ = selected_addresses(sel)
             for (a, n), t in sorted(expected_mapping(devices, must_addrs).items()):
                 m.add_type(short_address=a, instance_number=n, instance_type=(t + 1 + n % 3) % 32)
-        if sel[0] == "default":
-            return m.autodiscover()
-        return m.autodiscover(selector_arg(sel))
+        seq = m.autodiscover() if sel[0] == "default" else m.autodiscover(selector_arg(sel))
+        if case.get("clear_when") == "start" and not before:
+            # the application empties the table when it sees the scan start (first thing the scan puts on the bus):
+            # nothing has been discovered yet, so the finished scan holds all it found
+            return _clear_at_start(seq, m)
+        return seq
 
     def judge(units, bus, out, finfo):
         where = "autodiscover(%s) on %d devices%s%s" % (
@@ -781,6 +784,20 @@ def build_discover(case):
         return vs
     judge.recorded = lambda: sorted((repr(k), repr(v)) for k, v in holder["m"].mapping.items())
     return make_units, make_seq, judge, ncmd
+
+
+def _clear_at_start(inner, m):
+    answer = None
+    first = True
+    while True:
+        try:
+            item = next(inner) if first else inner.send(answer)
+        except StopIteration as e:
+            return e.value
+        if first:
+            m.clear()
+            first = False
+        answer = yield item
 
 
 BUILDERS = {"input": build_input, "setfilter": build_setfilter, "queryfilter": build_queryfilter, "scheme": build_scheme,
@@ -1013,6 +1030,8 @@ def classify(case):
         labs.append("discover:%s-devices" % ("0" if n == 0 else "1-4" if n <= 4 else "5-16" if n <= 16 else "17-64"))
         labs.append("discover:selector-" + case["selector"][0])
         labs += ["discover:" + x for x in population_features(case)]
+        if case.get("clear_when") and not case.get("before"):
+            labs.append("discover:table-cleared-as-the-scan-starts")
         if case.get("before"):
             labs.append("discover:mapper-used-before:%s:%s" % (case["before"]["how"], "cleared" if case["before"].get("clear", True) else "kept"))
             for h, k in case["before"].get("abandon") or ():
@@ -1142,6 +1161,8 @@ def population_st(draw):
             sel[0], sel[1] = "range", list(range(lo, draw(st.integers(lo, min(63, lo + 12))) + 1))
         elif form != "same":
             sel[0] = form
+    if draw(st.integers(0, 4)) == 0:
+        case["clear_when"] = "start"
     # the mapper object was in use before: another population (overlapping addresses, other types), then clear()
     if draw(st.integers(0, 3)) == 0:
         earlier = []
